@@ -562,6 +562,56 @@ func registerReflect(e *Engine) {
 		}
 		return one(c.St, VIface{Nil: False, Dyn: r.Typ, Val: v})
 	}
+	e.intr[rv+"Len"] = func(e *Engine, c *CallCtx) []Outcome {
+		r := rvalOf(c.Args[0])
+		if r == nil {
+			return []Outcome{{St: c.St, Panic: &PanicInfo{Kind: "reflect-zero-value", Site: c.Site}}}
+		}
+		switch v := e.rget(c.St, r).(type) {
+		case VString:
+			return one(c.St, v.Len)
+		case VSlice:
+			return one(c.St, v.Len)
+		case VArray:
+			return one(c.St, I64(int64(len(v.Elems))))
+		case VMap:
+			if v.Nil.IsTrue() {
+				return one(c.St, I64(0))
+			}
+			if v.Nil.IsFalse() {
+				return one(c.St, I64(int64(len(c.St.Obj(v.Obj).Entries))))
+			}
+		}
+		unsupported("reflect.Value.Len on %s", r.Typ)
+		return nil
+	}
+	scalar := func(name string) {
+		e.intr[rv+name] = func(e *Engine, c *CallCtx) []Outcome {
+			r := rvalOf(c.Args[0])
+			if r == nil {
+				return []Outcome{{St: c.St, Panic: &PanicInfo{Kind: "reflect-zero-value", Site: c.Site}}}
+			}
+			switch v := e.rget(c.St, r).(type) {
+			case *Term:
+				if v.S.K == SBool || v.S.W == 64 {
+					return one(c.St, v)
+				}
+				if _, signed, ok := basicWidth(r.Typ); ok && signed {
+					return one(c.St, SExt(v, 64))
+				}
+				return one(c.St, ZExt(v, 64))
+			case VString:
+				return one(c.St, v)
+			case VSlice:
+				return one(c.St, v)
+			}
+			unsupported("reflect.Value.%s on %s", name, r.Typ)
+			return nil
+		}
+	}
+	for _, n := range []string{"Int", "Uint", "Bool", "String", "Bytes"} {
+		scalar(n)
+	}
 	e.intr[rv+"SetString"] = func(e *Engine, c *CallCtx) []Outcome {
 		r := rvalOf(c.Args[0])
 		if r == nil || r.Addr == nil {
